@@ -2,12 +2,13 @@
 {"props": ["C12"], "src": ["lib/log.c"], "mode": "plain", "kind": "proved", "unwind": 33,
  "bound": "none: the loops over the 32 target slots have a constant trip count and are fully unwound",
  "functions": ["qb_log_real_va_ (through qb_log_real_)", "cs_format (inlined)"],
- "restrict_fp": ["qb_log_real_va_.function_pointer_call.1/verif_old_log_fn", "qb_log_real_va_.function_pointer_call.2/verif_vlogger",
-                 "qb_log_real_va_.function_pointer_call.3/verif_logger"],
+ "restrict_fp": ["qb_log_real_va_.function_pointer_call.1/verif_old_log_fn", "qb_log_real_va_.function_pointer_call.2/verif_old_log_fn",
+                 "qb_log_real_va_.function_pointer_call.3/verif_vlogger",
+                 "qb_log_real_va_.function_pointer_call.4/verif_logger", "qb_log_real_va_.function_pointer_call.5/verif_logger"],
  "stubs": ["vsnprintf (three arbitrary characters, QB_XC marker absent/first/middle/last; returns 3)", "strchr (marker position from the ghost message)",
            "malloc (fresh or NULL)", "qb_log_thread_log_post (recorded)", "qb_util_timespec_from_epoch_get (any time)", "qb_atomic_int_* (sequential)"],
- "expect_classes": ["assertion"], "timeout": 300,
- "variants": [{"vname": "main", "defines": ["-DV_MAIN"]},
+ "expect_classes": ["assertion"], "timeout": 300, "cbmc_flags": ["--slice-formula"],
+ "variants": [{"vname": "main", "defines": ["-DV_MAIN", "-DVERIF_MALLOC_ALWAYS_FAILS"]},
               {"vname": "longline", "defines": ["-DV_LONG"]},
               {"vname": "oom", "defines": ["-DV_LONG", "-DV_OOM"]},
               {"vname": "nullcs", "defines": ["-DV_NULLCS"]}]}
